@@ -8,7 +8,7 @@ PROPS["C17"] = dict(
           "mindist ∈ {−1, 0, 2 %…90 % of the diameter}, exhaustive ∈ {true, false}, tol ∈ {0, 1…5}, searched directly and after text / binary / operator<< >> round trips; "
           "bulk runs (all copies × 8 parameter combinations × 16–40 queries per set); dist_t = double with GeodesicExact distances (random lat/lon with duplicates); "
           "Load of images with 0–3 token-level mutations (replace / delete / duplicate / swap / truncate / header fields) and of byte-corrupted text and binary images; a "
-          "crafted image whose nodes share their children. Projections: a ∈ {WGS84, 1, 6.4e6·u}, f ∈ {WGS84, 0, ±0.01}, series and exact geodesic back ends; centres at the "
+          "crafted image whose nodes share their children; trees built by Initialize for 0…400 points (all five metrics, bucket 0…10) against the Lean model of init. Projections: a ∈ {WGS84, 1, 6.4e6·u}, f ∈ {WGS84, 0, ±0.01}, series and exact geodesic back ends; centres at the "
           "poles, on the equator, random; points coincident with the centre, 1e-9…1 m away, random, near / beyond the gnomonic horizon, near-antipodal, on the central "
           "meridian, |dlon| = 90 / 180 / > 90, longitude wrap. Intersect: f ∈ {WGS84, 0, ±0.015} (+ exact back end for ±1/50); generic lines, intersection at the origin, "
           "nearly parallel (1e-9…1e-3°), coincident parallel / antiparallel with equal and displaced start points, meridians / lines through poles, equatorial lines, "
@@ -16,6 +16,7 @@ PROPS["C17"] = dict(
           "random arguments. non-trivial = the model / oracle took a non-error path; distinct = distinct (op, leading arguments)"),
     tolerances={
         "NearestNeighbor (integer metrics)": "exact: index and distance lists equal to the Lean model of Search; distance list equal to the brute-force specification; TreeInv decided in Lean",
+        "Initialize vs model init": "node arrays and cost equal (the pair order (distance, index) is total, so the tree does not depend on the nth_element implementation); a different tree is not an alarm if it satisfies TreeInv (counted as skipped)",
         "NearestNeighbor (double, GeodesicExact)": "distance lists within 160 nm (4 × the documented 40 nm of GeodesicExact: the computed metric obeys the triangle inequality only to round-off), counts equal",
         "Load accept/reject": "an image the Lean model of Load/Node::Check rejects must be rejected; an unmodified Save image must be accepted and searched identically; rejecting a corrupted image the model accepts is harmless (skipped)",
         "projection wrappers vs kernel values": "4e-16 relative (x, y, rk), azimuths and reverse positions bit-equal to the kernel values",
@@ -31,22 +32,25 @@ PROPS["C17"] = dict(
                 "child l), the search terminates within numpoints pops and its distance list equals the k smallest distances of {d(p,q) : mindist < d ≤ maxdist}, ascending "
                 "(pruning soundness from the triangle inequality, best-k heap invariant, fuel adequacy); search_returns_points: the returned items are (dist(pt i, q), i) for "
                 "pairwise distinct i < numpoints (any query); search_nonexhaustive: with exhaustive = false at most k results, all in the window, and fewer than k results are all the points of the window; checkInv_sound: the executable invariant check run on every dumped tree implies TreeInv; save_load_roundtrip on "
-                "the text token layout and save_load_roundtrip_binary on the byte layout (little-endian 32/64-bit two's complement fields); load_rejects: everything Load accepts passes the header checks and Node::Check with the child-before-parent bound (fix 49e729b). "
+                "the text token layout and save_load_roundtrip_binary on the byte layout (little-endian 32/64-bit two's complement fields); load_rejects: everything Load accepts passes the header checks and Node::Check with the child-before-parent bound (fix 49e729b) and names no node twice as a child (fix 90dea91); load_is_forest: in every accepted file child pointers go to smaller indices, no node has two parents and the two children of a node differ (what is missing for Load ⇒ TreeInv — bounds vs. the points, each index once — cannot be decided by Load, which does not see the points); "
+                "init_establishes_inv: the model of NearestNeighbor::Initialize/init (vantage point to the front, distances, std::nth_element as a parameter constrained only by its post-condition NthSpec, min/max bounds, children before the parent, sorted bucket leaves, bucket = 0) produces, for every distance function, bucket size and point count, a node array satisfying TreeInv; nth_element_sort_spec: the full sort the driver uses is such an nth_element; "
+                "init_wellformed: for non-negative distances that array also passes Node::Check node by node with the child-before-parent bound and shares no child, so save_load_roundtrip applies to every tree Initialize builds; "
+                "nearest_neighbor_correct: Search on the tree built by Initialize returns the k smallest distances of the window, ascending — for every integer-valued metric, point set, bucket size, query, k, mindist, maxdist (exhaustive, tol = 0), with no hypothesis about the tree; nearest_neighbor_returns_points. "
                 "Projections — exact-real theorems about the wrapper formulas around an arbitrary geodesic kernel (same terms the driver evaluates in binary64 on the kernel "
                 "values of the real Geodesic object): azimuthal equidistant radius = s12, direction = azi1, rk = m12/s12 (1 at zero distance), Reverse∘Forward hands (azi1, s12) "
                 "back to Direct (identity under the kernel contract Direct∘Inverse = id); gnomonic: NaN iff M12 ≤ 0, radius m12/M12, rk = M12, Newton step stationary exactly at "
                 "ρ = m/M; Cassini–Soldner: sign cases, mirror symmetry, on-meridian azimuths. Intersect helpers: fixcoincident centres on p0 and minimises the L1 distance along "
                 "the coincidence line; segmentmode = 0 iff the point lies within both segments. "
-                "Correspondence only (no theorem): Initialize establishes TreeInv (decided per dumped tree), dist_t = double, Gnomonic/Cassini reverse, "
+                "Correspondence only (no theorem): that the C++ init is the modelled one (op nn_init: the tree dumped by Save equals the model's init on every sampled point set; a differing tree would be accepted if it satisfies the decided TreeInv), dist_t = double, Gnomonic/Cassini reverse, "
                 "the defining geometry of the projections (recomputed through Geodesic::Inverse/Direct), and everything about the Intersect tiling search (point on both "
                 "lines, minimality against All and an independent scan, Next incl. coincident antiparallel lines, segment indicator, All complete / sorted / duplicate-free / "
                 "monotone in the radius, coincidence flag). Partial: no theorem about Intersect::Closest/Next/Segment/All, none about the geodesic kernel itself (C01–C03)."),
     level_note=("hand-written models (Model/VPTree.lean, Model/GeodProj.lean, Model/IntersectFix.lean); no tables to regenerate (gens = []): the tie to the source is the "
                 "in-process correspondence run (ASan+UBSan) on the real tree dumped through Save, the kernel values of the real Geodesic object and the private helpers of "
                 "Intersect (-fno-access-control). "
-                "Open findings on the unchanged tree (known_findings.json): F12b Load accepts shared children (exponential Search), F24 AzimuthalEquidistant rk = inf at the centre, "
-                 "F25/F26 Geodesic::Inverse NaN on prolate ellipsoids / 0.1 mm error near the equatorial conjugate threshold (C02 class, seen through the oracles), "
-                 "F27 Intersect does not recognise some exactly coincident lines (c = 0, non-converged Newton), F28 Intersect::All lists an intersection twice"),
+                "Open findings on the unchanged tree (known_findings.json): F57 Intersect does not recognise some exactly coincident lines (c = 0, non-converged Newton), "
+                "F59 Intersect::Next not minimal for nearly parallel lines on a prolate ellipsoid (series solver); repaired since the first build: F53 (shared children, 90dea91 — "
+                "now part of the Load model), F54, F55, F56, F58, F60"),
     technique=("Lean 4 proof about the executable model of the vantage-point-tree search (induction over fuel with ghost trees, insertion-sort / k-best algebra, omega) and over ℝ "
                "for the projection wrappers (ring / linear_combination / Complex.arg) + exact correspondence of the model against the implementation + property-level oracles"),
     assumptions=["the geodesic kernel (Geodesic / GeodesicExact Inverse, Direct, Line) is trusted here (C01–C03)",
